@@ -721,6 +721,11 @@ def classify(c, impl):
         for (run, j, w, keys) in f:
             if "ORDER BY" not in w:
                 return None
+            spec = c["qs"][j]
+            # the known defect of the top-k zone selection shows for SMALL n+m only (observed: <= 3; deep
+            # pagination over thousands of rows is exact on the unmodified tree)
+            if spec[2] is None or (spec[2] or 0) + (spec[3] or 0) > 8:
+                return None
             if not (keys == sorted(keys) or keys == sorted(keys, reverse=True)):
                 return None
             # known only if the same query (also) returns a wrong slice once everything is flushed
